@@ -227,12 +227,29 @@ def utf8_texts(rng, thorough, tlc_texts):
     for _ in range(60 if not thorough else 1500):
         k = rng.choice([2, 2, 3])
         texts.append(b"".join(rng.choice(seqs) for _ in range(k)))
+    # ASCII runs as long as and longer than a machine word (and two, and four) before, between and behind multi-byte sequences,
+    # whole and cut short: whatever a decoder does several bytes at a time meets every state it can be in
+    runs = []
+    for _ in range(24 if not thorough else 400):
+        pieces = []
+        for _k in range(rng.choice([1, 2, 2, 3])):
+            s = rng.choice(seqs[:24])
+            if rng.random() < 0.4 and len(s) > 1:
+                s = s[: rng.randint(1, len(s) - 1)]               # truncated: the ASCII run arrives where a continuation is due
+            pieces.append(bytes(rng.choice(b"abcXYZ012 .") for _ in range(rng.choice([7, 8, 9, 15, 16, 17, 31, 32, 33]))) if rng.random() < 0.8 else b"")
+            pieces.append(s)
+        pieces.append(bytes(rng.choice(b"abcXYZ012 .") for _ in range(rng.choice([0, 7, 8, 9, 16]))))
+        runs.append(b"".join(pieces))
     texts.append(b"")
     texts.append(bytes.fromhex("efbbbf") + "héllo € \U0001f600".encode())
     texts += [bytes(t) for t in tlc_texts]
     seen, out = set(), []
     for t in texts:
         if t not in seen and len(t) <= 24:
+            seen.add(t)
+            out.append(t)
+    for t in runs:
+        if t not in seen and len(t) <= 120:
             seen.add(t)
             out.append(t)
     return out
@@ -369,7 +386,10 @@ def run(ctx):
         n1, _acc = pipeline.drive_vsched(ctx, exe_vs, blocks if val == "1" or not hw else blocks[::3], SPEC_DIR, "CodecVsTrace",
                                          "VsTrace.cfg", label="vs_" + label, env={"AWS_COMMON_AVX2": val})
         nvs += n1
-    pipeline.race_scan(ctx, "codec_scenario", "codec_scenario.c", blocks[: (80 if not thorough else 1500)])
+    # the race scan on both CPU paths too: tables and caches that only one path has are only raced over there
+    for label, val in paths:
+        pipeline.race_scan(ctx, "codec_scenario", "codec_scenario.c", blocks[: (80 if not thorough else 1500)], label="race_" + label,
+                           env={"AWS_COMMON_AVX2": val})
     ctx.extra["threaded_executions"] = nvs
     # evaluations / per-kind counts / event-by-event comparison of the two traces (diagnostic, not a verdict)
     kinds, total = {}, 0
